@@ -229,6 +229,8 @@ C14_Released(cfg, obs) ==
     /\ \A n \in Idx(obs) : obs[n].k \notin {"cbEst", "cbFin"}
     /\ (~PeerVanished(obs) => \E n \in Idx(obs) : obs[n].k = "closed")
     /\ \A n \in Idx(obs) : obs[n].k = "end" => obs[n].res = "quiet"
+    \* a client that reset its connection instead of waiting for the refusal: the server side of it is released
+    /\ \A n \in Idx(obs) : obs[n].k = "srvconn" => obs[n].res # "leaked"
 
 -----------------------------------------------------------------------------
 (* C08 — the client tolerates any server and reports establishment truthfully *)
